@@ -14,5 +14,6 @@ SRC = 'C11/h_ooo.cpp'
 def jobs(tier):
     q = tier == 'quick'
     J = []
+    J.append(ksjob('ooo_1resp_deadline', SRC, 2, 5, ['NRESP=1', 'YIELD_IN_COMPLETION'], desc='2 callers, 1 response for either caller (or an unknown tag), blocking header and body reads, deadlines may fall at any blocking point', stuck_legal=True, timeout=1200, unwind=2, mem_gb=10))
     J.append(ksjob('ooo_2callers', SRC, 2, 7, ['NRESP=2'], desc='2 callers, <= 2 responses, symbolic order / deadlines, blocking point inside do_collect', stuck_legal=True, timeout=1200, unwind=3, mem_gb=10))
     return J
